@@ -382,6 +382,11 @@ def generate(rng):
             prefix += [c for c in gen_ops(rng, keys, vals, 2) if c["op"] in ("read", "contains", "other")]
     dd = int(rng.random() < 0.5)
     ops = gen_ops(rng, keys, vals, rng.choice(deep([0, 1, 2, 3, 4, 6, 8, 12], [1, 2, 4, 8, 12, 20, 30])))
+    if rng.random() < 0.01:
+        # a bulk batch: more than a thousand distinct keys (over pre-existing contents)
+        bulk = [i.to_bytes(2, "big") for i in range(rng.choice([1030, 1100, 2100]))]
+        initial = initial + [[hx(k), hx(vals[0])] for k in bulk if rng.random() < 0.5]
+        ops = [({"op": "write", "k": hx(k), "v": hx(rng.choice(vals))} if rng.random() < 0.7 else {"op": "delete", "k": hx(k)}) for k in bulk]
     suffix = [{"op": "settle", "keys": [hx(k) for k in keys], "dd": int(rng.random() < 0.5)}]
     suffix += [c for c in gen_ops(rng, keys, vals, 3) if c["op"] in ("read", "contains")]
     base = {"cfg": {"initial": initial, "store": rng.choice(["min", "min", "dict"])}, "prefix": prefix, "dd": dd, "ops": ops, "suffix": suffix}
@@ -408,7 +413,8 @@ def explore(rng, st):
         st.samples.append({"initial": base["cfg"]["initial"], "do_deletes": base["dd"], "target_batch": base["ops"], "n_prefix": len(base["prefix"])})
     execute(variant(base, k, "normal"), st)
     nt = st.nontrivial
-    for p in range(k + 1):
+    positions = range(k + 1) if k <= 60 else (0, k // 2, k)  # a bulk batch: three crash points only
+    for p in positions:
         for how in ("E", "B", "G", "F"):
             execute(variant(base, p, how), st)
     st.nontrivial = nt
